@@ -117,6 +117,8 @@ func coqEvents(events []ev) ([]string, string) {
 			out = append(out, fmt.Sprintf("EStrobe %d %d", e.a, e.b))
 		case "env.invalidate":
 			out = append(out, fmt.Sprintf("EInvalidate %d %d %d", e.a, e.b, e.c))
+		case "dump":
+			out = append(out, coqSnap(e.snap))
 		case "env.stop":
 			out = append(out, fmt.Sprintf("EStop %d", e.a))
 		case "env.cancel":
@@ -326,6 +328,11 @@ func Main(prop string) {
 		}
 		if c.DelayUs > 0 {
 			run.Hist("write-then-read-delay>0")
+		}
+		if res.DumpBroken {
+			run.Hist("dump:unavailable")
+		} else if res.Kinds["dump"] > 0 {
+			run.Hist(fmt.Sprintf("dump:state-compared-at-%d-quiescent-points", res.Kinds["dump"]))
 		}
 		for _, k := range []string{"outadd", "reactive.invalidate.noop", "reactive.cache.lockerr", "env.timer", "reactive.run.retry", "reactive.run.failed"} {
 			if res.Kinds[k] > 0 {
